@@ -67,6 +67,25 @@ def worker(args):
                 res["viol"].append(("draw-not-scored-zero", "%s -> %s" % (script, got)))
             elif expect == "mate1" and got != "mate 1":
                 res["viol"].append(("mating-move-not-mate1", "%s -> %s" % (script, got)))
+            if expect == "draw" and rnd.random() < .6:
+                # The same root without the searchmoves filter: the side to move can play m and have a draw, so the value of the root
+                # is at least 0. (m is then usually not the first root move and, in a worse position, is re-searched after failing high -
+                # a path the single-move search above never takes.)
+                d2 = rnd.randint(2, 7)
+                ls2, best2 = eng.go("go depth %d" % d2, timeout=120)
+                res["n"] += 1
+                res["by"]["root-value:" + tag.split()[0]] = res["by"].get("root-value:" + tag.split()[0], 0) + 1
+                fin = None
+                for l in ls2:
+                    k, mm = uci.classify(l)
+                    if k == "pv" and not mm.group("bound") and (mm.group("multipv") in (None, "1")):
+                        fin = mm
+                if best2 is None:
+                    res["viol"].append(("no-bestmove", script + " ; go depth %d" % d2)); break
+                if fin is not None:
+                    val = int(fin.group("score"))
+                    if (fin.group("kind") == "cp" and val < 0) or (fin.group("kind") == "mate" and val < 0):
+                        res["viol"].append(("drawing-move-available-but-root-scored-below-zero", "%s ; go depth %d -> %s (move %s draws)" % (pos_cmd, d2, fin.group(0)[:120], m)))
             if len(res["samples"]) < 1 and expect != "control":
                 res["samples"].append("%s -> %s (expected %s)" % (script, got, expect))
     finally:
@@ -114,7 +133,7 @@ def run(c):
     c.rule = ("search side: one case = (start FEN, legal move history, candidate move m, expectation) generated with refchess: cycles of reversible moves creating "
               "2nd/3rd occurrences at history lengths 3..130 of both parities, cycles before/after an irreversible move, first occurrence carrying an uncapturable "
               "e.p. square (FIDE-identical), half-move clocks 90..110 by FEN and by played moves, mating moves on the 100th ply; 'go depth 1..8 searchmoves m', MultiPV 1/2; "
-              "asserted: draw => final score 'cp 0', mate => 'mate 1'; controls (2nd occurrence, clock<99, irreversible m) are run but nothing is asserted on their score. "
+              "asserted: draw => final score 'cp 0', mate => 'mate 1'; for 60% of the draw cases also the unrestricted search of the same root (depth 2..7): its value must be >= 0 because m is available;  controls (2nd occurrence, clock<99, irreversible m) are run but nothing is asserted on their score. "
               "distinct_nontrivial = distinct (fen, history, m) plus distinct console-game command histories. Console part: random command histories "
               "(moves biased to reversible shuffles, undo/redo, draw rep/50 [move], draw offer, draw accept, resign, setpos, swap) and directed histories "
               "(double push leaving an uncapturable e.p. square, undo/redo, two cycles, claim) against a reference model of FIDE claims/terminal states; "
